@@ -57,6 +57,17 @@ def step(nmax, maxblocks):
         r2 = blk.remaining_chars
         require(s_and(r2 >= 0, r2 <= 1012), 'remaining_chars leaves 0..1012', key='C04/state', replay=rp)
         require(s_eq(rlen(V) % 1014, 1012 - r2), 'remaining_chars does not match the file position', key='C04/state', replay=rp)
+        # whatever else the blocker remembers between calls must not matter: a small further write and the finalisation complete the file
+        def rp2():
+            a = rp()
+            a['args']['lengths'] = a['args']['lengths'] + [5]
+            a['args']['data'] = a['args']['data'] + [b'tail.']
+            a['args']['end'] = 'finalise'
+            return a
+        core.FUEL.set(maxblocks + 3)
+        blk.write(b'tail.')
+        blk.finalise()
+        check_blocked(f.getvalue(), cat('b', D, b'tail.'), True, maxblocks + 1, 'after a further write and finalise', key='C04/layout', replay=rp2)
         return {'sample': {'r': ev(r), 'n': ev(n), 'size': ev(rlen(V)), 'r_after': ev(r2)}, 'replay': rp()}
     return h
 
